@@ -110,20 +110,37 @@ impl Msg {
 }
 
 pub fn cstr_at(b: &[u8], at: usize) -> (String, usize) {
+    let at = at.min(b.len());
     let mut i = at;
     while i < b.len() && b[i] != 0 {
         i += 1;
     }
-    let s = String::from_utf8_lossy(&b[at.min(b.len())..i]).to_string();
+    let s = String::from_utf8_lossy(&b[at..i]).to_string();
     (s, i + 1)
 }
 
-pub fn cstr_bytes_at(b: &[u8], at: usize) -> (Vec<u8>, usize) {
+/// C string that must be NUL-terminated inside the body (None = malformed message).
+pub fn cstr_checked(b: &[u8], at: usize) -> Option<(String, usize)> {
+    if at > b.len() {
+        return None;
+    }
     let mut i = at;
     while i < b.len() && b[i] != 0 {
         i += 1;
     }
-    (b[at.min(b.len())..i].to_vec(), i + 1)
+    if i >= b.len() {
+        return None;
+    }
+    Some((String::from_utf8_lossy(&b[at..i]).to_string(), i + 1))
+}
+
+pub fn cstr_bytes_at(b: &[u8], at: usize) -> (Vec<u8>, usize) {
+    let at = at.min(b.len());
+    let mut i = at;
+    while i < b.len() && b[i] != 0 {
+        i += 1;
+    }
+    (b[at..i].to_vec(), i + 1)
 }
 
 fn put_cstr(v: &mut Vec<u8>, s: &str) {
